@@ -1,4 +1,4 @@
-import SgVerif.C37.Model
+import SgVerif.C37.EngineLemmas2
 /-
 C37 — Trace replay reproduces the online simulated time.  Property theorems (thin model: the TI trace grammar).
 
@@ -27,6 +27,8 @@ def Action.printable : Action → Prop
   | .scatterv _ r root _ _ => 0 ≤ root ∧ 0 ≤ r
   | .alltoallv ssz _ rsz _ _ _ => 0 ≤ ssz ∧ 0 ≤ rsz
   | .reducescatter _ comp _ => 0 ≤ comp
+  | .sendrecv sc _ rc _ _ _ => 0 ≤ sc ∧ 0 ≤ rc
+  | .scan _ comp _ | .exscan _ comp _ => 0 ≤ comp
   | _ => True
 
 /-- the excluding hypothesis of the partial theorem -/
@@ -55,6 +57,14 @@ theorem getElem?_append_at {α : Type} (l t : List α) (n k : Nat) (h : l.length
   rw [List.getElem?_append_right (by omega)]
   congr 1; omega
 
+/-- MPI_Sendrecv ("sendRecv"): the two partners travel in the one-element count vectors of VarCollTIData -/
+theorem roundtrip_sendrecv (fixed : Bool) (n dflt : Nat) (sc dst rc src : Int) (st rt : Nat) (h1 : 0 ≤ sc) (h2 : 0 ≤ rc) :
+    parse n dflt (Action.sendrecv sc dst rc src st rt).name ((Action.sendrecv sc dst rc src st rt).print fixed) =
+      some (Action.sendrecv sc dst rc src st rt) := by
+  have a1 : sc > -1 := by omega
+  have a2 : rc > -1 := by omega
+  simp [Action.name, Action.print, printVar, parse, parseTy, a1, a2]
+
 /-- round trip for the calls without count vectors, writer as it is -/
 theorem roundtrip_scalar (fixed : Bool) (n dflt : Nat) (a : Action) (hp : a.printable)
     (hr : fixed = true ∨ a.recvPositive)
@@ -62,10 +72,13 @@ theorem roundtrip_scalar (fixed : Bool) (n dflt : Nat) (a : Action) (hp : a.prin
     parse n dflt a.name (a.print fixed) = some a := by
   have hq : ∀ r : Int, 0 ≤ r → ((0 < r ∨ r = 0) ↔ True) := fun r h => by simp; omega
   cases a <;> simp [Action.isVec] at hs
+  case sendrecv sc dst rc src st rt =>
+    simp only [Action.printable] at hp
+    exact roundtrip_sendrecv fixed n dflt sc dst rc src st rt hp.1 hp.2
   all_goals simp only [Action.printable, Action.recvPositive] at hp hr
   all_goals
     rcases hr with hr | hr <;>
-    simp_all [Action.name, Action.print, parse, printColl, parseRoot, parseTy] <;> omega
+    simp_all [Action.name, Action.print, parse, printColl, printVar, parseRoot, parseTy] <;> omega
 
 /-- **Round trip, writer as it is** (`fixed = false`), every supported call, every argument value, every
 communicator size ≥ 2 — under the excluding hypothesis `recvPositive`. -/
@@ -213,6 +226,90 @@ theorem ti_gather_recv0_counterexample :
     parse 3 6 "gather" ((Action.gather 5 0 0 1 1).print false) ≠ some (Action.gather 5 0 0 1 1) := by
   decide
 
+/-! ### the timing side: online run and replay issue the same calls -/
+
+/-- every TI record an online rank writes can be printed and is well formed -/
+theorem trace_ok (me : Int) (n : Nat) : ∀ (prog : List Call) (o : OState),
+    (∀ a, Call.blocking a ∈ prog → a.wf n ∧ a.printable) → ∀ x ∈ (onlineRun me o prog).2, x.1.wf n ∧ x.1.printable := by
+  intro prog
+  induction prog with
+  | nil => intro o _ x hx; simp [onlineRun] at hx
+  | cons c rest ih =>
+    intro o hp x hx
+    simp only [onlineRun, List.mem_append] at hx
+    rcases hx with hx | hx
+    · cases c with
+      | blocking a =>
+        simp only [onlineStep, List.mem_singleton] at hx; subst hx
+        exact hp a (by simp)
+      | isend p t s ty =>
+        simp only [onlineStep, List.mem_singleton] at hx; subst hx; simp [Action.wf, Action.printable]
+      | irecv p t s ty =>
+        simp only [onlineStep, List.mem_singleton] at hx; subst hx; simp [Action.wf, Action.printable]
+      | wait id =>
+        simp only [onlineStep] at hx
+        split at hx
+        · simp only [List.mem_singleton] at hx; subst hx; simp [Action.wf, Action.printable]
+        · simp at hx
+      | test id flag =>
+        simp only [onlineStep] at hx
+        split at hx
+        · simp only [List.mem_singleton] at hx; subst hx; simp [Action.wf, Action.printable]
+        · simp at hx
+      | waitall ids =>
+        simp only [onlineStep, List.mem_singleton] at hx; subst hx; simp [Action.wf, Action.printable]
+    · exact ih _ (fun a ha => hp a (List.mem_cons_of_mem _ ha)) x hx
+
+/-- the replay parser reads every printed record back (the proved writer / parser round trip, line by line) -/
+theorem parseLines_print (n dflt : Nat) (hn : 2 ≤ n) : ∀ (tr : List (Action × Bool)),
+    (∀ x ∈ tr, x.1.wf n ∧ x.1.printable) → parseLines n dflt (tr.map printLine) = some tr := by
+  intro tr
+  induction tr with
+  | nil => intro _; rfl
+  | cons x rest ih =>
+    intro h
+    obtain ⟨h1, h2⟩ := h x (by simp)
+    have e1 := ti_print_parse_roundtrip_fixed n dflt hn x.1 h1 h2
+    have e2 := ih (fun y hy => h y (List.mem_cons_of_mem _ hy))
+    simp only [List.map_cons, parseLines, printLine] at e2 ⊢
+    rw [e1, e2]
+
+/-- **replay_issues_same_calls**: for every program of one rank (any length; blocking point-to-point, Sendrecv,
+    collectives, Scan, Isend / Irecv, Wait, Test with any outcomes, Waitall) that the TI format can represent (`WfProg`:
+    no two simultaneously stored requests with the same (sender, receiver, tag), Waitall names every active request),
+    the replayer — reading the lines the online run printed — does not abort and issues the same sequence of calls to the
+    simulation: same kind, same peer / root, same sizes, same datatypes, same requests waited / tested (a waitall: the
+    same set of requests).  ∀ rank, ∀ communicator size ≥ 2, ∀ default datatype. -/
+theorem replay_issues_same_calls (me : Int) (n dflt : Nat) (hn : 2 ≤ n) (prog : List Call)
+    (hwf : WfProg me ⟨0, [], []⟩ prog) (hp : ∀ a, Call.blocking a ∈ prog → a.wf n ∧ a.printable) :
+    ∃ iss r', replayRunText me n dflt ⟨0, []⟩ ((onlineRun me ⟨0, [], []⟩ prog).2.map printLine) = some (iss, r') ∧
+      sameL (onlineRun me ⟨0, [], []⟩ prog).1 iss := by
+  obtain ⟨iss, r', e, s⟩ := run_sim me prog ⟨0, [], []⟩ ⟨0, []⟩ inv_init hwf
+  refine ⟨iss, r', ?_, s⟩
+  simp only [replayRunText, parseLines_print n dflt hn _ (trace_ok me n prog _ hp)]
+  exact e
+
+def issuesOf (x : Option (List Issue × RState)) : Option (List Issue) := x.map (·.1)
+
+/-- `WfProg` cannot drop "distinct keys": two Isends to the same peer with the same tag, waited in the other order —
+    the replayer waits for the OTHER request (the TI record of a wait only carries (src, dst, tag)) -/
+theorem replay_same_key_counterexample :
+    (onlineRun 0 ⟨0, [], []⟩ [.isend 1 0 10 0, .isend 1 0 99999 0, .wait 1, .wait 0]).1 =
+      [.start (.isend 1 0 10 0) 0, .start (.isend 1 0 99999 0) 1, .wait 1, .wait 0] ∧
+    issuesOf (replayRun 0 ⟨0, []⟩ (onlineRun 0 ⟨0, [], []⟩ [.isend 1 0 10 0, .isend 1 0 99999 0, .wait 1, .wait 0]).2) =
+      some [.start (.isend 1 0 10 0) 0, .start (.isend 1 0 99999 0) 1, .wait 0, .wait 1] := by decide
+
+/-- `WfProg` cannot drop "no reuse of the key of a request completed by MPI_Test": the polling loop
+    `Isend; Test…Test (succeeds); Isend (same peer, same tag); Test; Test` — the storage still holds the null entry of the
+    first request, the first Test of the second request pops it and is dropped ("ignore the extra calls"): the replay
+    issues one MPI_Test less than the application -/
+theorem replay_stale_null_counterexample :
+    (onlineRun 0 ⟨0, [], []⟩ [.isend 1 0 10 0, .test 0 false, .test 0 true, .isend 1 0 10 0, .test 1 false, .test 1 true]).1 =
+      [.start (.isend 1 0 10 0) 0, .test 0, .test 0, .start (.isend 1 0 10 0) 1, .test 1, .test 1] ∧
+    issuesOf (replayRun 0 ⟨0, []⟩
+      (onlineRun 0 ⟨0, [], []⟩ [.isend 1 0 10 0, .test 0 false, .test 0 true, .isend 1 0 10 0, .test 1 false, .test 1 true]).2) =
+      some [.start (.isend 1 0 10 0) 0, .test 0, .test 0, .start (.isend 1 0 10 0) 1, .test 1] := by decide
+
 /-! non-vacuity -/
 example : (Action.gatherv 3 [3, 3, 3] 1 1 1).wf 3 ∧ (Action.gatherv 3 [3, 3, 3] 1 1 1).printable ∧
     (Action.gatherv 3 [3, 3, 3] 1 1 1).recvPositive := by
@@ -221,5 +318,24 @@ example : parse 3 6 "alltoallv" ((Action.alltoallv 6 [2, 2, 2] 6 [2, 2, 2] 1 1).
     some (Action.alltoallv 6 [2, 2, 2] 6 [2, 2, 2] 1 1) := by decide
 example : parse 3 6 "gather" ((Action.gather 5 0 0 1 1).print true) = some (Action.gather 5 0 0 1 1) := by decide
 example : parse 3 6 "reduce" ((Action.reduce 12 0 2 0).print false) = some (Action.reduce 12 0 2 0) := by decide
+
+/-- non-vacuity of `replay_issues_same_calls`: rank 1 of 3 — Irecv, Isend, a failed and a successful Test, Sendrecv, Wait,
+    Bcast, Scan, a second round of requests with other tags, Waitall -/
+def demoProg : List Call :=
+  [.irecv 0 5 100 1, .isend 2 5 100 1, .test 0 false, .test 0 true, .blocking (.sendrecv 10 2 10 0 1 1), .wait 1,
+   .blocking (.bcast 1000 0 0), .blocking (.scan 8 0 1), .irecv 0 6 7 0, .isend 2 6 7 0, .waitall [2, 3]]
+example : WfProg 1 ⟨0, [], []⟩ demoProg := by
+  simp [demoProg, WfProg, wfStep, onlineStep, Action.isBlocking]
+example : ∀ a, Call.blocking a ∈ demoProg → a.wf 3 ∧ a.printable := by
+  intro a h
+  simp only [demoProg, List.mem_cons, Call.blocking.injEq, List.mem_nil_iff, or_false, reduceCtorEq, false_or] at h
+  rcases h with rfl | rfl | rfl <;> simp [Action.wf, Action.printable]
+example : (onlineRun 1 ⟨0, [], []⟩ demoProg).1 =
+    [.start (.irecv 0 5 100 1) 0, .start (.isend 2 5 100 1) 1, .test 0, .test 0, .call (.sendrecv 10 2 10 0 1 1), .wait 1,
+     .call (.bcast 1000 0 0), .call (.scan 8 0 1), .start (.irecv 0 6 7 0) 2, .start (.isend 2 6 7 0) 3, .waitall [2, 3]] ∧
+    issuesOf (replayRunText 1 3 6 ⟨0, []⟩ ((onlineRun 1 ⟨0, [], []⟩ demoProg).2.map printLine)) =
+      some (onlineRun 1 ⟨0, [], []⟩ demoProg).1 := by decide
+example : parse 3 6 "sendRecv" ((Action.sendrecv 10 2 10 0 1 1).print true) = some (Action.sendrecv 10 2 10 0 1 1) := by decide
+example : parse 3 6 "exscan" ((Action.exscan 8 0 1).print true) = some (Action.exscan 8 0 1) := by decide
 
 end SgVerif.C37
